@@ -47,6 +47,42 @@ namespace g
    struct ident : p::star< p::sor< p::keyword< 'i', 'f' >, p::identifier, p::shebang, p::two< '-' >, p::three< '=' >, p::any > > {};
 }  // namespace g
 
+// A property monitor used as the control of every run: C02 — an invocation that fails locally under rewind_mode::required
+// must leave the cursor where it was entered (checked for every rule of the shipped grammars, hand-written match() functions
+// included).
+namespace mon
+{
+   inline long g_rewind_bad = 0;
+   inline std::string g_first;
+
+   template< typename Rule >
+   struct control
+      : p::normal< Rule >
+   {
+      template< p::apply_mode A,
+                p::rewind_mode M,
+                template< typename... >
+                class Action,
+                template< typename... >
+                class Control,
+                typename ParseInput,
+                typename... States >
+      [[nodiscard]] static bool match( ParseInput& in, States&&... st )
+      {
+         const char* const b = in.current();
+         const bool r = p::normal< Rule >::template match< A, M, Action, Control >( in, st... );
+         // local failure under `required`: cursor exactly where it was; success: never backwards
+         if( ( !r && ( M == p::rewind_mode::required ) && ( in.current() != b ) ) || ( r && ( in.current() < b ) ) ) {
+            if( g_rewind_bad++ == 0 ) {
+               g_first = std::string( p::demangle< Rule >() );
+            }
+         }
+         return r;
+      }
+   };
+
+}  // namespace mon
+
 template< typename Rule, p::tracking_mode T, typename Eol >
 void run_one( const std::string& bytes )
 {
@@ -56,13 +92,15 @@ void run_one( const std::string& bytes )
       std::memcpy( buf, bytes.data(), n );
    }
    vh::g_oob = 0;
+   mon::g_rewind_bad = 0;
+   mon::g_first.clear();
    const char* res = "fail";
    std::string what;
    std::size_t consumed = 0;
    {
       p::memory_input< T, Eol, std::string > in( buf, buf + n, "c03" );
       try {
-         res = p::parse< Rule >( in ) ? "ok" : "fail";
+         res = p::parse< Rule, p::nothing, mon::control >( in ) ? "ok" : "fail";
       }
       catch( const p::parse_error& ) {
          res = "error";
@@ -72,6 +110,9 @@ void run_one( const std::string& bytes )
          what = e.what();
       }
       consumed = std::size_t( in.current() - in.begin() );
+   }
+   if( mon::g_rewind_bad != 0 ) {
+      std::printf( "REWIND %ld %s\n", mon::g_rewind_bad, mon::g_first.c_str() );
    }
    std::printf( "%s%s%s %zu %zu %ld\n", res, what.empty() ? "" : ":", what.c_str(), consumed, n, vh::g_oob );
    std::fflush( stdout );
